@@ -8,6 +8,7 @@ import (
 	"reflect"
 	"sort"
 	"strings"
+	"time"
 
 	icl "github.com/moov-io/imagecashletter"
 	client "github.com/moov-io/imagecashletter/client"
@@ -43,6 +44,25 @@ func clientOps(rep *Report, f *icl.File, variant int) {
 		}
 	} else {
 		rep.count("client-op:create:ok")
+	}
+	// the v2 create operation: whatever the server answers with a 2xx status the client must be able to decode
+	{
+		c2 := create
+		c2.ID = ""
+		rep.Evaluations++
+		got, resp, err := api.CreateICLFileV2(ctx, c2)
+		switch {
+		case resp != nil && resp.StatusCode < 300 && err != nil:
+			rep.violate(Violation{Key: "C20:client-op:create-v2:response-not-decoded", What: fmt.Sprintf("CreateICLFileV2: the server answered %d but the client returns an error: %v", resp.StatusCode, err),
+				Replay: map[string]any{"status": resp.StatusCode, "content_type": resp.Header.Get("Content-Type"), "error": err.Error()}})
+		case err != nil:
+			rep.count("client-op:create-v2:refused")
+		default:
+			rep.count("client-op:create-v2:ok")
+			if got.ID == "" {
+				rep.violate(Violation{Key: "C20:client-op:create-v2:no-id", What: "CreateICLFileV2 succeeded but the decoded file has no ID", Replay: map[string]any{}})
+			}
+		}
 	}
 	stored := func() *icl.File {
 		g, err := repo.GetFile(create.ID)
@@ -91,8 +111,36 @@ func clientOps(rep *Report, f *icl.File, variant int) {
 	if len(f.CashLetters) > 0 {
 		var c1 client.CashLetter
 		if viaClient(&f.CashLetters[0], &c1) {
-			for i := 0; i < 2; i++ {
+			for i := 0; i < 4; i++ {
 				c := c1
+				if i >= 2 {
+					// dates submitted with a zone offset: local midnight east of UTC, an evening west of UTC (the calendar
+					// day in the value's own zone is the business day)
+					loc := []*time.Location{time.FixedZone("", 2*3600), time.FixedZone("", -4*3600)}[i-2]
+					var cc client.CashLetter
+					if !viaClient(&c1, &cc) {
+						continue
+					}
+					n := 0
+					for bi := range cc.Bundles {
+						for ri := range cc.Bundles[bi].Returns {
+							for ai := range cc.Bundles[bi].Returns[ri].ReturnDetailAddendumB {
+								d := cc.Bundles[bi].Returns[ri].ReturnDetailAddendumB[ai].PayorBankBusinessDate
+								if d.IsZero() {
+									d = time.Date(2018, 10, 3, 0, 0, 0, 0, time.UTC)
+								}
+								hh := []int{0, 21}[i-2]
+								cc.Bundles[bi].Returns[ri].ReturnDetailAddendumB[ai].PayorBankBusinessDate = time.Date(d.Year(), d.Month(), d.Day(), hh, 30*(i-2), 0, 0, loc)
+								n++
+							}
+						}
+					}
+					if n == 0 {
+						continue
+					}
+					rep.count("client-op:add-cash-letter:zoned-dates")
+					c = cc
+				}
 				if i == 1 && c.CashLetterHeader.OriginatorContactName != "" {
 					h := c.CashLetterHeader
 					h.OriginatorContactName = ""
@@ -127,10 +175,10 @@ func firstFieldDiff(a, b reflect.Value) string {
 	switch a.Kind() {
 	case reflect.Struct:
 		if a.Type().String() == "time.Time" {
-			if !a.Interface().(interface{ IsZero() bool }).IsZero() || !b.Interface().(interface{ IsZero() bool }).IsZero() {
-				if !reflect.DeepEqual(a.Interface(), b.Interface()) {
-					return "(time)"
-				}
+			// the same instant and the same calendar day in the value's own zone (the day is what the X9 record carries)
+			ta, tb := a.Interface().(time.Time), b.Interface().(time.Time)
+			if !ta.Equal(tb) || ta.Format("20060102") != tb.Format("20060102") {
+				return "(time)"
 			}
 			return ""
 		}
